@@ -122,7 +122,7 @@ def gen_item(rng, items, name=None):
         c = rng.choice(classes)
         ci = cur[c]
         extra = {}
-        if ci.get("slots") is None and not any(cur[b].get("slots") for b in ci["bases"]) and rng.random() < 0.3:
+        if ci.get("slots") is None and not any(cur.get(b, {}).get("slots") for b in ci["bases"]) and rng.random() < 0.3:
             extra = {"e": rng.choice(["1", "2"])}
         return dict(k="inst", name=name or rng.choice(IN), cls=c, arg=rng.choice(INTS), extra=extra)
     if r < 0.96 and (funcs or classes):
